@@ -17,7 +17,7 @@ MANIFEST = dict(
          "`self.changes = []` reset, the for-else clear, ack-before-parse, counter kind), so removing the reset or changing a slice changes the Lean term. "
          "Tie: translator facts + differential correspondence of the real long-lived handler objects (async via the real consume task on the virtual loop; "
          "threaded via stepped dispatch on a real GeckoSpa) + a sequential reference block kept by the harness (search)."
-         ' Since session 3: partial updates carry overlapping neighbour records (p, p+-1, p). Session 4: histories contain partial updates that arrive while a request holds the protocol lock (busy windows): application stays in arrival order and every update is acknowledged. The acknowledging handler and the apply callback of the awaitable client have no suspension point (partial_update_never_suspends over the regenerated skeletons; no_suspension_no_aw: every trace is one atomic block). Histories with a byte-identical report repeated after a refresh overwrote its positions; partial_update_path_state_inventory. Real refresh exchanges on the wire with a partial update queued just ahead of the answer, at several phases of the two pollers. Session 5: connected clients (the items of a pack\'s tables built over the block and watched, as a facade does) with partial updates and refreshes that put unusual stored values under them (an enumeration\'s byte at / around its label count, 255, first record of several); an exception of the implementation during a refresh is an observation with a failing input. The threaded rig\'s partial updates arrive as framed datagrams in a fake OS socket that truncates to the reader\'s buffer and are read by the engine\'s own receive step; maximal messages (255 records) in the corpus; largest_partial_update_fits_the_receive_buffer over the regenerated recvBufferSize. One message for every record count 0..255; count_follows_the_verb over the regenerated verbSkip facts (the translator admits only `received_bytes[<constant>:]`). Round 14: a real connected manager; behind the final segment of every refresh answer the spa reports a change inside the refreshed range - the client must hold the change (arrival order). Round 15: the spa reports changes while the hand-shake is between the config file and the block and inside a slow handler of the completed connection; a report of two changes in front of the final segment of a refresh answer with a client handler that suspends on every event.',
+         ' Since session 3: partial updates carry overlapping neighbour records (p, p+-1, p). Session 4: histories contain partial updates that arrive while a request holds the protocol lock (busy windows): application stays in arrival order and every update is acknowledged. The acknowledging handler and the apply callback of the awaitable client have no suspension point (partial_update_never_suspends over the regenerated skeletons; no_suspension_no_aw: every trace is one atomic block). Histories with a byte-identical report repeated after a refresh overwrote its positions; partial_update_path_state_inventory. Real refresh exchanges on the wire with a partial update queued just ahead of the answer, at several phases of the two pollers. Session 5: connected clients (the items of a pack\'s tables built over the block and watched, as a facade does) with partial updates and refreshes that put unusual stored values under them (an enumeration\'s byte at / around its label count, 255, first record of several); an exception of the implementation during a refresh is an observation with a failing input. The threaded rig\'s partial updates arrive as framed datagrams in a fake OS socket that truncates to the reader\'s buffer and are read by the engine\'s own receive step; maximal messages (255 records) in the corpus; largest_partial_update_fits_the_receive_buffer over the regenerated recvBufferSize. One message for every record count 0..255; count_follows_the_verb over the regenerated verbSkip facts (the translator admits only `received_bytes[<constant>:]`). Round 14: a real connected manager; behind the final segment of every refresh answer the spa reports a change inside the refreshed range - the client must hold the change (arrival order). Round 15: the spa reports changes while the hand-shake is between the config file and the block and inside a slow handler of the completed connection; a report of two changes in front of the final segment of a refresh answer with a client handler that suspends on every event. Round 17: a change outside the range being refreshed, reported while the transfer is under way, stays in the client\'s block.',
     note="Trusted: Lean kernel, translator, correspondence harness. asyncio: no other task runs between async_handle and async_handled (neither suspends). "
          "Malformed STATP bodies (short records) and observers that raise inside the threaded callback are outside the property's quantifier and the model. "
          "A STATQ arriving at the client is outside the quantifier too (the async handler would then re-apply its last change list).",
@@ -478,6 +478,11 @@ def connected_refresh_then_update(ctx):
             sb = sim.structure.status_block
             p1, p2 = start + 10, start + 24
             changes = [(p1, bytes([sb[p1] ^ 0xFF, sb[p1 + 1] ^ 0x0F])), (p2, bytes([sb[p2] ^ 0xFF, sb[p2 + 1] ^ 0x0F]))]
+            # ... and one change OUTSIDE the range being refreshed (reported while the transfer is under way): the refresh must leave it alone
+            p3 = start - 12 if start >= 16 else start + length + 8
+            if 0 <= p3 < 1022 and not (start <= p3 < start + length):
+                changes.append((p3, bytes([sb[p3] ^ 0x5A, sb[p3 + 1] ^ 0xA5])))
+                rec["outside"] = [p3, changes[-1][1].hex()]
             dst = (payload[payload.find(b"<DESCN>") + 7:payload.find(b"</DESCN>")])
             src = (payload[payload.find(b"<SRCCN>") + 7:payload.find(b"</SRCCN>")])
             h = GeckoPartialStatusBlockProtocolHandler.report_changes(sim._socket, changes, parms=(tr.addr[0], tr.addr[1], dst, src))
@@ -521,6 +526,10 @@ def connected_refresh_then_update(ctx):
             cb, sb = m.facade.spa.struct.status_block, sim.structure.status_block
             touched = {q for _, p1, p2 in rec["in_front"] for q in (p1, p1 + 1, p2, p2 + 1)}
             behind = {q for _, pos, _h in rec["injected"] for q in (pos, pos + 1)}
+            if rec.get("outside"):
+                q, hexv = rec["outside"]
+                if cb[q:q + 2].hex() != hexv:
+                    rec["outside_bad"] = {"position": q, "reported while a refresh of another range was under way": hexv, "client holds": cb[q:q + 2].hex()}
             rec["in_front_bad"] = [{"position": q, "client holds": cb[q], "the refresh that arrived later brought": sb[q]} for q in sorted(touched - behind) if cb[q] != sb[q]][:4]
         await m.__aexit__(None, None, None)
     vloop.run_virtual(body, stable=True)
@@ -533,6 +542,9 @@ def connected_refresh_then_update(ctx):
                       "changes the spa reports while the connection is starting up (during the handshake; while the client's handler of the completed "
                       "connection is busy) are acknowledged and end up in the client's block",
                       {"reports": rec.get("early_reports"), "acknowledgements": rec.get("early_acks"), "block differs from the spa's at": rec.get("early_block_differs_at")})
+    elif rec.get("outside_bad"):
+        ctx.violation("connected:update-outside-the-range-during-a-refresh", {"kind": "connected-refresh-then-update"},
+                      "a change the spa reports while a refresh of ANOTHER range is under way stays in the client's block", rec["outside_bad"])
     elif rec.get("in_front_bad"):
         ctx.violation("connected:update-in-front-of-a-refresh-end", {"kind": "connected-refresh-then-update"},
                       "a report of two changes that arrives in front of the final segment of a refresh answer is applied as a whole before the refresh is "
